@@ -109,16 +109,8 @@ def c09_oracle(full, io, b):
                 cls = "authority-normalises-to-empty"
             else:
                 hostinfo = auth.rpartition("@")[2]
-                mb = re.match(r"^\[([^\[\]]*)\](:.*)?$", hostinfo)
-                if "[" in hostinfo or "]" in hostinfo:
-                    if not mb:
-                        cls = "bracketed-host-not-ipv6"
-                    else:
-                        import ipaddress
-                        try:
-                            ipaddress.IPv6Address(mb.group(1).partition("%")[0])
-                        except ValueError:
-                            cls = "bracketed-host-not-ipv6"
+                if ("[" in hostinfo or "]" in hostinfo) and not re.match(r"^\[[^\[\]]*\](:[^\[\]]*)?$", hostinfo):
+                    cls = "malformed-brackets"
             out.append({"what": f"{name}: {pretty_out(a)} on the original, {pretty_out(c)} on its pickled/copied twin ({text})", "class": cls,
                         "n": v.n_of(h, name), "also": [v.n_of(src, name)], "input": inp})
             break
